@@ -149,6 +149,10 @@ std::string tmpdir()
         std::string base = r ? r : "/verif/build/run";
         mkdir(base.c_str(), 0755);
         d = base + "/p" + std::to_string(getpid());
+        // process ids are reused: whatever an earlier process of the same id left behind
+        // (socket files!) must not be met again
+        std::string rm = "rm -rf '" + d + "'";
+        if (system(rm.c_str()) != 0) {}
         mkdir(d.c_str(), 0755);
     }
     return d;
